@@ -210,4 +210,70 @@ class TwoGaps(object):
         return out, vs, 1
 
 
-FAMILIES = [Canonical(), OneGap(), TwoGaps()]
+
+class BackToBack(object):
+    name = 'back-to-back'
+    describe = ('ONE parser object parses text A - ending in every trailing separator of the alphabet (comment without line end, bare '
+                'CR, nothing ...) or broken off inside a MACRO / EXPORTS / CHOICE section or a comment - and then text B: the tree of '
+                'B is its reference tree whatever A ended with; 6 x 4 catalogue texts, every dialect')
+    A_IDS = ['value-name-0', 'ot-parts-0', 'macro-0-0', 'exports-0', 'choice-0', 'mi-0']
+    B_IDS = ['value-name-0', 'ot-parts-1', 'type-0', 'two-modules-0']
+    BROKEN = ['X-MIB DEFINITIONS ::= BEGIN\nOBJECT-TYPE MACRO ::= BEGIN never closed', 'X-MIB DEFINITIONS ::= BEGIN\nEXPORTS a, b',
+              'X-MIB DEFINITIONS ::= BEGIN\nT ::= CHOICE { a INTEGER', 'X-MIB DEFINITIONS ::= BEGIN -- cut inside a comment',
+              'X-MIB DEFINITIONS ::= BEGIN "cut inside a string']
+
+    def ids(self, wanted):
+        byid = cat('quick')[1]
+        out = []
+        for w in wanted:
+            if w in byid:
+                out.append(w)
+            else:
+                alt = sorted(k for k in byid if k.startswith(w.rsplit('-', 1)[0]))
+                if alt:
+                    out.append(alt[0])
+        return out
+
+    def blocks(self, tier):
+        return [{'a': a} for a in self.ids(self.A_IDS)] + [{'broken': i} for i in range(len(self.BROKEN))]
+
+    def cases(self, block, tier):
+        for b in self.ids(self.B_IDS):
+            for d in ('smiV2', 'smiV1', 'smiV1Relaxed'):
+                if 'broken' in block:
+                    yield {'broken': block['broken'], 'b': b, 'd': d}
+                else:
+                    for t in range(len(TRAIL)):
+                        yield {'a': block['a'], 't': t, 'b': b, 'd': d}
+
+    def run_case(self, case):
+        byid = cat('quick')[1]
+        eb = byid[case['b']]
+        if case['d'] not in dialects(eb):
+            return 'skip', [], 0
+        if 'broken' in case:
+            text_a = self.BROKEN[case['broken']]
+            label = 'broken-%d' % case['broken']
+        else:
+            ea = byid[case['a']]
+            if case['d'] not in dialects(ea):
+                return 'skip', [], 0
+            text_a = mibspec.join(mibspec.file_tokens(ea['mods']), trail=TRAIL[case['t']])
+            label = 'trail=%r' % TRAIL[case['t']]
+        text_b = mibspec.join(mibspec.file_tokens(eb['mods']))
+        parser = env.fresh_parser(case['d'])
+        try:
+            parser.parse(text_a)
+        except Exception:
+            pass
+        sig = 'C02|back-to-back|first-text-%s' % label
+        try:
+            got = parser.parse(text_b)
+        except Exception as exc:
+            return 'exc', [('%s|exception|%s' % (sig, type(exc).__name__), 'after %r\ntext %r raised %r' % (text_a[-60:], text_b, exc))], 2
+        want = mibspec.file_tree(eb['mods'])
+        if got != want:
+            return 'diff', [('%s|tree-differs' % sig, 'after %r\ntext %r\nexpected %r\ngot      %r' % (text_a[-60:], text_b, want, got))], 2
+        return 'ok', [], 2
+
+FAMILIES = [Canonical(), OneGap(), TwoGaps(), BackToBack()]
